@@ -3,5 +3,5 @@ CONSTANTS
   Tier = "quick"
   Emit = FALSE
   Broken = "none"
-INVARIANTS OneSamplePerRecord LeafKept ThreadzCountsAllThreads AddressesFromInput
+INVARIANTS OneSamplePerRecord LeafKept ThreadzCountsAllThreads AddressesFromInput MappingsCoverAddresses
 CHECK_DEADLOCK FALSE
